@@ -252,7 +252,7 @@ def build(r, pos, nl):
 POSITIONS = ["expr", "expr-multiline", "control", "for-iterable", "for-iterable-loop", "loop-body", "elif-test", "while-test", "call-expr", "tag-attr",
              "include-file-expr", "code-line", "def", "nested-def", "call-body", "block", "anon-block",
              "filter", "decorator", "include", "namespace-def", "inherit-base", "inherit-child"]
-PATHS = ["put_string", "file-lookup", "moddir-first", "moddir-reload", "moddir-relative"]
+PATHS = ["put_string", "file-lookup", "moddir-first", "moddir-reload", "moddir-relative", "modfile-relative"]
 
 
 def make_lookup(spec, path, d, **kw):
@@ -275,6 +275,10 @@ def make_lookup(spec, path, d, **kw):
         if path == "moddir-relative":
             # a module directory given relative to the working directory (Python makes module paths absolute itself)
             kw["module_directory"] = os.path.relpath(kw["module_directory"], os.getcwd())
+    if path == "modfile-relative":
+        # module files named by a callable that answers with paths relative to the working directory
+        base = os.path.relpath(os.path.join(d, "mf"), os.getcwd())
+        kw["modulename_callable"] = lambda filename, uri: os.path.join(base, uri.strip("/").replace("/", "__") + ".py")
     lk = L(directories=[root], imports=IMPORTS, **kw)
     return lk, ids, lambda: None
 
